@@ -32,6 +32,7 @@ def _map_calls(P, fn, methods, direct_only=True):
             if not ("HashMap" in n or "hash_map" in n) or method(n) not in methods or not t["args"]:
                 continue
             recv = tr.operand(t["args"][0], endpos(f, b))
+            direct = False
             for a in strip(recv):
                 if a[0] == "field" and (a[3] or "").endswith("DnsCache") and a[2] in MAPS:
                     base = a[1]
@@ -39,6 +40,14 @@ def _map_calls(P, fn, methods, direct_only=True):
                         base = base[1]
                     if base[0] == "param" or (base[0] == "field" and isinstance(base[2], int)):
                         out.setdefault(a[2], []).append((f, b, method(n)))
+                        direct = True
+            if not direct and any(x[0] == "agg" and x[1] == "array" for x in walk(recv)):
+                # one statement applied to several maps in turn: `for table in [&mut self.srv, &mut self.txt, ..] { table.retain(..) }`
+                for x in walk(recv):
+                    if x[0] == "agg" and x[1] == "array":
+                        for y in walk(x):
+                            if y[0] == "field" and (y[3] or "").endswith("DnsCache") and y[2] in MAPS:
+                                out.setdefault(y[2], []).append((f, b, method(n)))
     return out
 
 
